@@ -324,6 +324,11 @@ func (o *oracle) blockTransition(cidr string, nb *blockShadow, wr store.Write, s
 				}
 			}
 			r.Probe("released")
+			if op != nil {
+				// the releasing operation will go on to decrement this handle: if it is then hit by a fault, the
+				// handle's count may legitimately stay high
+				op.handles = append(op.handles, a.handle)
+			}
 			// The release happened somewhere inside the releasing operation's window; the earliest defensible
 			// instant (its invocation) is used so that a stalled releaser is not held against the allocator.
 			o.lastReleased[ip] = now
